@@ -145,7 +145,7 @@ theorem uniqueNodes_ok (ws : List (P × P)) {ord : SetOrd P} (hord : ord.Valid) 
 /-! ### `unique_node_mapping` -/
 
 theorem uniqueNodeMapping_eq (ws : List (P × P)) (ord : SetOrd P) (all : List P) :
-    uniqueNodeMapping ws ord all = all.map fun n => (n, urep ws (uniqueNodes ws ord all) n) := rfl
+    uniqueNodeMapping ws ord all = (ord.all all).map fun n => (n, urep ws (uniqueNodes ws ord all) n) := rfl
 
 theorem lookup_map_self {α β : Type} [DecidableEq α] (f : α → β) (l : List α) (a : α) :
     (l.map fun n => (n, f n)).lookup a = if a ∈ l then some (f a) else none := by
@@ -409,7 +409,7 @@ theorem namedFold_lookup_of_ne (f : P → P) (L : List (P × String)) (d : List 
 /-! ### numerals for the unlabelled representatives -/
 
 theorem numberStep_fst (acc : List (P × String) × Nat) (p : P) :
-    ∃ s, (numberStep acc p).1 = acc.1 ++ [(p, s)] ∧ s ∉ acc.1.map Prod.snd := by
+    ∃ s, (numberStep acc p).1 = dictSet p s acc.1 ∧ s ∉ acc.1.map Prod.snd := by
   refine ⟨_, rfl, ?_⟩
   have := nextFree_fresh (acc.1.map (·.2)) acc.2
   simpa using this
@@ -420,74 +420,53 @@ structure NumInv (named : List (P × String)) (doneL : List P) (l : List (P × S
   inj : InjLookup l
   tot : ∀ p ∈ doneL, (l.lookup p).isSome
 
-theorem NumInv.fold {named : List (P × String)} (L : List P) {doneL : List P}
-    {acc : List (P × String) × Nat} (I : NumInv named doneL acc.1) :
+theorem NumInv.fold {named : List (P × String)} (L : List P) (hL : ∀ p ∈ L, named.lookup p = none)
+    {doneL : List P} {acc : List (P × String) × Nat} (I : NumInv named doneL acc.1) :
     NumInv named (doneL ++ L) (L.foldl numberStep acc).1 := by
   induction L generalizing doneL acc with
   | nil => simpa using I
   | cons p L ih =>
     rw [List.foldl_cons]
     obtain ⟨s, hs, hfresh⟩ := numberStep_fst acc p
+    have hp0 : named.lookup p = none := hL p List.mem_cons_self
     have I' : NumInv named (doneL ++ [p]) (numberStep acc p).1 := by
       rw [hs]
       constructor
       · intro r a h
-        rw [lookup_append_single, I.ext r a h]
+        rw [lookup_dictSet]
+        have : ¬ r = p := fun e => by rw [e, hp0] at h; cases h
+        simp only [this, if_false]
+        exact I.ext r a h
       · intro r r' a hr hr'
-        rw [lookup_append_single] at hr hr'
-        cases h1 : acc.1.lookup r with
-        | some a1 =>
-          rw [h1] at hr
-          cases h2 : acc.1.lookup r' with
-          | some a2 =>
-            rw [h2] at hr'
-            simp only at hr hr'
-            exact I.inj r r' a (hr ▸ h1) (hr' ▸ h2)
-          | none =>
-            rw [h2] at hr'
-            simp only at hr hr'
-            by_cases hp : r' = p
-            · simp only [hp, if_true] at hr'
-              have : a1 = s := by rw [Option.some.inj hr]; exact (Option.some.inj hr').symm
-              exact absurd (this ▸ lookup_mem_vals h1) hfresh
-            · simp [hp] at hr'
-        | none =>
-          rw [h1] at hr
-          simp only at hr
-          by_cases hp : r = p
-          · simp only [hp, if_true] at hr
-            cases h2 : acc.1.lookup r' with
-            | some a2 =>
-              rw [h2] at hr'
-              simp only at hr'
-              have : a2 = s := by rw [Option.some.inj hr']; exact (Option.some.inj hr).symm
-              exact absurd (this ▸ lookup_mem_vals h2) hfresh
-            | none =>
-              rw [h2] at hr'
-              simp only at hr'
-              by_cases hp' : r' = p
-              · rw [hp, hp']
-              · simp [hp'] at hr'
-          · simp [hp] at hr
+        rw [lookup_dictSet] at hr hr'
+        by_cases h1 : r = p
+        · by_cases h2 : r' = p
+          · rw [h1, h2]
+          · simp only [h1, if_true, h2, if_false] at hr hr'
+            have : a = s := (Option.some.inj hr).symm
+            exact absurd (this ▸ lookup_mem_vals hr') hfresh
+        · by_cases h2 : r' = p
+          · simp only [h1, if_false, h2, if_true] at hr hr'
+            have : a = s := (Option.some.inj hr').symm
+            exact absurd (this ▸ lookup_mem_vals hr) hfresh
+          · simp only [h1, h2, if_false] at hr hr'
+            exact I.inj r r' a hr hr'
       · intro q hq
-        rw [lookup_append_single]
-        rcases List.mem_append.mp hq with hq | hq
-        · have := I.tot q hq
-          cases h : acc.1.lookup q with
-          | some a => simp
-          | none => simp [h] at this
-        · rw [List.mem_singleton.mp hq]
-          cases h : acc.1.lookup p with
-          | some a => simp
-          | none => simp
-    have := ih (doneL := doneL ++ [p]) I'
+        rw [lookup_dictSet]
+        by_cases hqp : q = p
+        · simp [hqp]
+        · simp only [hqp, if_false]
+          rcases List.mem_append.mp hq with hq | hq
+          · exact I.tot q hq
+          · exact absurd (List.mem_singleton.mp hq) hqp
+    have := ih (doneL := doneL ++ [p]) (fun q hq => hL q (List.mem_cons_of_mem _ hq)) I'
     simpa [List.append_assoc] using this
 
-theorem numberUnlabeled_spec (named : List (P × String)) (hinj : InjLookup named) (unl : List P) :
-    NumInv named unl (numberUnlabeled named unl) := by
+theorem numberUnlabeled_spec (named : List (P × String)) (hinj : InjLookup named) (unl : List P)
+    (hunl : ∀ p ∈ unl, named.lookup p = none) : NumInv named unl (numberUnlabeled named unl) := by
   have I0 : NumInv named [] (named, named.length + 1).1 :=
     ⟨fun _ _ h => h, hinj, fun p hp => by cases hp⟩
-  simpa [numberUnlabeled] using NumInv.fold unl I0
+  simpa [numberUnlabeled] using NumInv.fold unl hunl I0
 
 /-! ### the label map of a drawing -/
 
@@ -497,9 +476,9 @@ structure NodeSymsWF (ws : List (P × P)) (all : List P) (nodeSyms : List (P × 
   on_terminal : ∀ ps ∈ nodeSyms, ps.1 ∈ all
   same_name : ∀ ps ∈ nodeSyms, ∀ ps' ∈ nodeSyms, ps.2 = ps'.2 → Joined ws ps.1 ps'.1
 
-theorem umap_lookup (ws : List (P × P)) (ord : SetOrd P) {all : List P} {p : P} (hp : p ∈ all) :
+theorem umap_lookup (ws : List (P × P)) {ord : SetOrd P} (hord : ord.Valid) {all : List P} {p : P} (hp : p ∈ all) :
     (uniqueNodeMapping ws ord all).lookup p = some (urep ws (uniqueNodes ws ord all) p) := by
-  rw [uniqueNodeMapping_eq, lookup_map_self]; simp [hp]
+  rw [uniqueNodeMapping_eq, lookup_map_self]; simp [hord.mem_all.mpr hp]
 
 /-- summary of `node_label_mapping` for a well-formed drawing -/
 structure LabelsOK (ws : List (P × P)) (ord : SetOrd P) (all : List P) (nodeSyms : List (P × String))
@@ -516,7 +495,7 @@ theorem labels_ok (ws : List (P × P)) {ord : SetOrd P} (hord : ord.Valid) {all 
   have U := uniqueNodes_ok ws hord hall
   let f := urep ws (uniqueNodes ws ord all)
   have hnamed : namedLabels (uniqueNodeMapping ws ord all) nodeSyms = .ok (namedFold f nodeSyms []) :=
-    namedLabels_ok _ f nodeSyms (fun ps hps => umap_lookup ws ord (hwf.on_terminal ps hps))
+    namedLabels_ok _ f nodeSyms (fun ps hps => umap_lookup ws hord (hwf.on_terminal ps hps))
   have hWF : ∀ ps ∈ nodeSyms, ∀ ps' ∈ nodeSyms, ps.2 = ps'.2 → f ps.1 = f ps'.1 := by
     intro ps hps ps' hps' hid
     exact (urep_eq_iff U (hwf.on_terminal ps hps) (hwf.on_terminal ps' hps')).mpr
@@ -525,7 +504,13 @@ theorem labels_ok (ws : List (P × P)) {ord : SetOrd P} (hord : ord.Valid) {all 
     NInv.fold hWF nodeSyms (fun _ h => by cases h) (fun _ h => h) (NInv.nil f)
   let named := namedFold f nodeSyms []
   let unl := (ord.uniq (uniqueNodes ws ord all)).filter fun p => (named.lookup p).isNone
-  have NU := numberUnlabeled_spec named NI.inj unl
+  have hunl : ∀ p ∈ unl, named.lookup p = none := by
+    intro p hp
+    have := (List.mem_filter.mp hp).2
+    cases h : named.lookup p with
+    | none => rfl
+    | some a => simp [h] at this
+  have NU := numberUnlabeled_spec named NI.inj unl hunl
   refine ⟨numberUnlabeled named unl, ?_, NU.inj, ?_, NU.ext⟩
   · unfold nodeLabelMapping
     rw [hnamed]
@@ -562,7 +547,7 @@ theorem getNodeIndex_spec (ws : List (P × P)) {ord : SetOrd P} (hord : ord.Vali
     cases h : labels.lookup (f p) with
     | some a =>
       show lookupLabel _ _ p = .ok ((labels.lookup (f p)).getD "")
-      rw [h]; exact lookupLabel_ok (umap_lookup ws ord hp) h
+      rw [h]; exact lookupLabel_ok (umap_lookup ws hord hp) h
     | none => simp [h] at this
   · intro p hp q hq
     have hp' := L.tot (f p) (urep_spec U hp).1
@@ -601,6 +586,6 @@ theorem getNodeIndex_named (ws : List (P × P)) {ord : SetOrd P} (hord : ord.Val
       exact hlast ps' hps' ((urep_eq_iff U hps hps'a).mp heq.symm)
   unfold getNodeIndex
   rw [L.eq]
-  exact lookupLabel_ok (umap_lookup ws ord hps) (L.named (f ps.1) ps.2 hnamed)
+  exact lookupLabel_ok (umap_lookup ws hord hps) (L.named (f ps.1) ps.2 hnamed)
 
 end CC.Draw
